@@ -102,6 +102,10 @@ type Options struct {
 	NoArrays      bool // no Go arrays
 	NoNilPointers bool // null only as nil interface
 	NoMixedIface  bool // (reserved)
+	// LooseFloat32: use float32 for every number that a float32 holds exactly, even when
+	// encoding/json would spell it differently (float32(0.1) is written as 0.1). Only for the
+	// equality properties, whose reference is the mathematical value, not the encoding.
+	LooseFloat32 bool
 }
 
 // Builder builds representations.
@@ -130,6 +134,14 @@ func (b *Builder) Build(v *jv.V) any {
 }
 
 // numFits reports whether number v is exactly representable in numeric type t.
+func (b *Builder) numFits(v *jv.V, t reflect.Type) bool {
+	if b.O.LooseFloat32 && t.Kind() == reflect.Float32 && v.K == jv.Num {
+		f, exact := v.N.Float32()
+		return exact && !math.IsInf(float64(f), 0)
+	}
+	return numFits(v, t)
+}
+
 func numFits(v *jv.V, t reflect.Type) bool {
 	if v.K != jv.Num {
 		return false
@@ -268,7 +280,7 @@ func (b *Builder) chooseBase(v *jv.V, depth int) reflect.Type {
 			if t == tNumber && b.O.NoJSONNumber {
 				continue
 			}
-			if numFits(v, t) {
+			if b.numFits(v, t) {
 				cands = append(cands, t)
 			}
 		}
